@@ -5,7 +5,7 @@
 #define VP_OUTW 24     /* caller's output window */
 #define VP_SIG 16      /* longest output of a primitive in the environment */
 enum vp_in_idx { I_macNull, I_asymNull, I_keyNull, I_amech, I_size, I_datalen, I_buflen, I_lenNull, I_prim_ok, I_prim_outlen, I_w, I_siglen_in, VP_IN_N };
-enum vp_out_idx { O_prim_n, O_prim_datalen, O_prim_data0, O_prim_datalast, O_prim_mech, O_prim_siglen, O_len_after, O_out_w, VP_OUT_N };
+enum vp_out_idx { O_prim_n, O_prim_datalen, O_prim_data0, O_prim_datalast, O_prim_mech, O_prim_siglen, O_len_after, O_out_w, O_fin_n, VP_OUT_N };
 VP_C_BEGIN
 extern CK_ULONG vp_in[VP_IN_N];
 extern unsigned char vp_in_data[VP_DATA];
